@@ -230,6 +230,7 @@ def check(ctx):
         "single_deviations_pruned_by_read_set": agg["pruned"], "refused_runs": agg["refused"], "timeouts": agg["timeouts"],
         "distinct_outcomes": agg["outcomes"], "k_completed": 1 if quick else 2,
     }
+    cov.update(bee.vacuity(agg))
     return {"level": LEVEL, "coverage": cov,
             "assumptions": ["independent lexer extracts the comments of input and output",
                             "comments at holes h = j (mod m) are placed together in one variant (neighbouring comments are >= m tokens apart)"]}
